@@ -194,24 +194,23 @@ SeqToSet(s) == { s[i] : i \in 1..Len(s) }
 \* position of every commitment (wallet's or not) as the k-th leaf appended for its pool
 PosOfOut(prior, b, t, p, i) == StartOf(prior, b, p).n + OutsUpTo(b.txs, p, t - 1) + i
 
-ThmPositions(prior, b, keys, tracked) ==
-    LET r == ScanBlock(prior, b, keys, tracked) IN
+\* r is ScanBlock(prior, b, keys, tracked); passed in so that TLC evaluates it once per theorem
+ThmPositionsR(r, prior, b) ==
     r.ok =>
       /\ \A p \in Pools :
-           \* the commitments of the pool, in the order returned, occupy start .. final-1 exactly once
-           /\ Len(r.cms[p]) = r.final[p] - r.start[p]
-           /\ \A k \in 1..Len(r.cms[p]) :
-                 PosOfOut(prior, b, r.cms[p][k].t, p, r.cms[p][k].i) = r.start[p] + k - 1
-           /\ \A x, y \in { o \in AllOuts(b) : o[2] = p } :
-                 PosOfOut(prior, b, x[1], p, x[3]) = PosOfOut(prior, b, y[1], p, y[3]) => x = y
-           /\ { PosOfOut(prior, b, o[1], p, o[3]) : o \in { o \in AllOuts(b) : o[2] = p } }
-                 = r.start[p] .. (r.final[p] - 1)
+           LET outs == { o \in AllOuts(b) : o[2] = p }
+               posns == { PosOfOut(prior, b, o[1], p, o[3]) : o \in outs }
+           IN  \* the commitments of the pool, in the order returned, occupy start .. final-1 exactly once
+               /\ Len(r.cms[p]) = r.final[p] - r.start[p]
+               /\ \A k \in 1..Len(r.cms[p]) :
+                     PosOfOut(prior, b, r.cms[p][k].t, p, r.cms[p][k].i) = r.start[p] + k - 1
+               /\ Cardinality(posns) = Cardinality(outs)                 \* injective
+               /\ posns = r.start[p] .. (r.final[p] - 1)                 \* onto
       /\ \A k \in 1..Len(r.recv) :
             r.recv[k].pos = PosOfOut(prior, b, r.recv[k].t, r.recv[k].p, r.recv[k].i)
 
-ThmPartition(prior, b, keys, tracked) ==
-    LET r == ScanBlock(prior, b, keys, tracked)
-        got == { << r.recv[k].t, r.recv[k].p, r.recv[k].i >> : k \in 1..Len(r.recv) }
+ThmPartitionR(r, b, keys, tracked) ==
+    LET got == { << r.recv[k].t, r.recv[k].p, r.recv[k].i >> : k \in 1..Len(r.recv) }
         mine == { o \in AllOuts(b) : b.txs[o[1]][o[2]].out[o[3] + 1].o \in keys }
         sp == { << r.spent[k].t, r.spent[k].p, r.spent[k].i >> : k \in 1..Len(r.spent) }
         unl == UNION { { << t, p, r.unl[p][t][k] >> : k \in 1..Len(r.unl[p][t]) } : t \in 1..Len(b.txs), p \in Pools }
@@ -232,8 +231,7 @@ ThmPartition(prior, b, keys, tracked) ==
           /\ SeqToSet(r.wtx) = { x[1] : x \in got \cup sp }
 
 \* rejected iff some defect; continuity precedes everything and height precedes hash
-ThmErrors(prior, b, keys, tracked) ==
-    LET r == ScanBlock(prior, b, keys, tracked) IN
+ThmErrorsR(r, prior, b) ==
     /\ r.ok <=> Defects(prior, b) = << >>
     /\ HeightErr(prior, b) => ~r.ok /\ r.err = "BlockHeightDiscontinuity"
     /\ (~HeightErr(prior, b) /\ HashErr(prior, b)) => ~r.ok /\ r.err = "PrevHashMismatch"
@@ -242,8 +240,20 @@ ThmErrors(prior, b, keys, tracked) ==
     /\ (~r.ok /\ r.err \in { "TreeSizeUnknown", "TreeSizeInvalid" }) => \E p \in Pools : PriorSize(prior, p) = Unknown
 
 \* only whether the tags match matters, not the tags
-ThmHashTag(prior, b, keys, tracked, Tags) ==
-    prior.k = "some" =>
-       LET r0 == ScanBlock([prior EXCEPT !.hash = 0], [b EXCEPT !.prev = 0], keys, tracked) IN
-       \A x \in Tags : ScanBlock([prior EXCEPT !.hash = x], [b EXCEPT !.prev = x], keys, tracked) = r0
+ThmHashTagR(r, prior, b, keys, tracked, Tags) ==
+    (prior.k = "some" /\ b.prev = prior.hash) =>
+       \A x \in Tags : ScanBlock([prior EXCEPT !.hash = x], [b EXCEPT !.prev = x], keys, tracked) = r
+
+\* a range of one block is that block
+ThmRangeOfOneR(r, prior, b, keys, tracked) ==
+    LET g == ScanRange(prior, << b >>, keys, tracked)
+    IN  g.ok = r.ok /\ g.res = << r >> /\ (g.ok <=> g.at = 0)
+
+Theorems(prior, b, keys, tracked, Tags) ==
+    LET r == ScanBlock(prior, b, keys, tracked) IN
+    /\ ThmPositionsR(r, prior, b)
+    /\ ThmPartitionR(r, b, keys, tracked)
+    /\ ThmErrorsR(r, prior, b)
+    /\ ThmHashTagR(r, prior, b, keys, tracked, Tags)
+    /\ ThmRangeOfOneR(r, prior, b, keys, tracked)
 ================================================================================
